@@ -1317,6 +1317,136 @@ def at_ (m : MBounds) (cs : Cells) (i : Nat) : Option RowRef := do
   pure ⟨m.tbl, raw, m.rkp⟩
 end MBounds
 
+/-- two tables (each with its own column list, change version and remove version) plus the version cells -/
+structure BWorld where
+  cs : Cells
+  a : Table
+  b : Table
+
+namespace BWorld
+def obj (w : BWorld) (o : Bool) : Table := if o then w.b else w.a
+def setObj (w : BWorld) (o : Bool) (cs : Cells) (t : Table) : BWorld :=
+  if o then { w with cs := cs, b := t } else { w with cs := cs, a := t }
+end BWorld
+
+/-- entry points of DataTable / DataConstRowReference / DataSelection / RowHashBounds -/
+inductive BOp where
+  | at_ (o : Bool) (i : Nat)
+  | get (r : RowRef)
+  | add (o : Bool) (a b : Nat)
+  | insert (o : Bool) (i a b : Nat)
+  | updRow (o : Bool) (i a b : Nat)
+  | updB (o : Bool) (r : RowRef) (b : Nat)
+  | rmRef (o : Bool) (r : RowRef)
+  | rmNum (o : Bool) (i : Nat)
+  | mkMut (o : Bool) (r : RowRef)
+  | newRow (r : RowRef)
+  | clear (o : Bool)
+  | rmIf (o : Bool) (m r : Nat)
+  | rmRefs (o : Bool) (rs : List RowRef) (keep : Bool)
+  | select (o : Bool) (m r : Nat)
+  | findU (o : Bool) (v : Nat)
+  | findM (o : Bool) (v : Nat)
+  | selAt (s : Sel) (i : Nat)
+  | selSet (s : Sel) (i : Nat) (r : RowRef)
+  | selAdd (s : Sel) (r : RowRef)
+  | selIns (s : Sel) (i : Nat) (r : RowRef)
+  | selRm (s : Sel) (i n : Nat)
+  | selRead (s : Sel)
+  | mbAt (m : MBounds) (i : Nat)
+
+inductive BRes where
+  | unit
+  | ref (r : RowRef)
+  | refFlag (r : RowRef) (inserted : Bool)
+  | sel (s : Sel)
+  | bounds (m : MBounds)
+  | num (n : Nat)
+
+/-- one call; `none` in the second component = `std::invalid_argument` was thrown (the world is returned unchanged) -/
+def BWorld.step (w : BWorld) : BOp → BWorld × Option BRes
+  | .at_ o i => (w, ((w.obj o).at_ w.cs i).map .ref)
+  | .get r => (w, (r.get w.cs).map (fun _ => .ref r))
+  | .add o a b =>
+      let x := (w.obj o).tryAdd w.cs a b
+      (w.setObj o x.1 x.2.1, some (.refFlag x.2.2.1 x.2.2.2))
+  | .insert o i a b =>
+      match (w.obj o).tryInsert w.cs i a b with
+      | some x => (w.setObj o x.1 x.2.1, some (.refFlag x.2.2.1 x.2.2.2))
+      | none => (w, none)
+  | .updRow o i a b =>
+      match (w.obj o).tryUpdateRow w.cs i a b with
+      | some x => (w.setObj o x.1 x.2.1, some (.refFlag x.2.2.1 x.2.2.2))
+      | none => (w, none)
+  | .updB o r b =>
+      match (w.obj o).updateB w.cs r b with
+      | some x => (w.setObj o x.1 x.2, some .unit)
+      | none => (w, none)
+  | .rmRef o r =>
+      match (w.obj o).removeRef w.cs r with
+      | some x => (w.setObj o x.1 x.2, some .unit)
+      | none => (w, none)
+  | .rmNum o i =>
+      match (w.obj o).removeNum w.cs i with
+      | some x => (w.setObj o x.1 x.2, some .unit)
+      | none => (w, none)
+  | .mkMut o r => (w, ((w.obj o).makeMutable w.cs r).map .ref)
+  | .newRow r => (w, (Table.newRowFrom w.cs r).map (fun _ => .unit))
+  | .clear o =>
+      let x := (w.obj o).clear w.cs
+      (w.setObj o x.1 x.2, some .unit)
+  | .rmIf o m r =>
+      let x := (w.obj o).removeIf w.cs m r
+      (w.setObj o x.1 x.2.1, some (.num x.2.2))
+  | .rmRefs o rs keep =>
+      match (w.obj o).removeRefs w.cs rs keep with
+      | some x => (w.setObj o x.1 x.2, some .unit)
+      | none => (w, none)
+  | .select o m r => (w, some (.sel ((w.obj o).select w.cs m r)))
+  | .findU o v => (w, some (.sel ((w.obj o).findUnique w.cs v)))
+  | .findM o v => (w, some (.bounds ((w.obj o).findMulti w.cs v)))
+  | .selAt s i => (w, (s.at_ i).map .ref)
+  | .selSet s i r => (w, (s.set w.cs i r).map .sel)
+  | .selAdd s r => (w, (s.add w.cs r).map .sel)
+  | .selIns s i r => (w, (s.insert w.cs i r).map .sel)
+  | .selRm s i n => (w, (s.remove i n).map .sel)
+  | .selRead s => (w, (s.readAll w.cs).map (fun _ => .unit))
+  | .mbAt m i => (w, (m.at_ w.cs i).map .ref)
+
+/-- the table a mutating entry point is called on -/
+def BOp.target : BOp → Option Bool
+  | .add o _ _ => some o
+  | .insert o _ _ _ => some o
+  | .updRow o _ _ _ => some o
+  | .updB o _ _ => some o
+  | .rmRef o _ => some o
+  | .rmNum o _ => some o
+  | .clear o => some o
+  | .rmIf o _ _ => some o
+  | .rmRefs o _ _ => some o
+  | _ => none
+
+/-- the row references an entry point is given (every one of them is checked) -/
+def BOp.refs : BOp → List RowRef
+  | .get r => [r]
+  | .updB _ r _ => [r]
+  | .rmRef _ r => [r]
+  | .mkMut _ r => [r]
+  | .newRow r => [r]
+  | .rmRefs _ rs _ => rs
+  | .selSet _ _ r => [r]
+  | .selAdd _ r => [r]
+  | .selIns _ _ r => [r]
+  | _ => []
+
+/-- the table an entry point that takes row references is called on -/
+def BOp.on : BOp → Option Bool
+  | .updB o _ _ => some o
+  | .rmRef o _ => some o
+  | .mkMut o _ => some o
+  | .rmRefs o _ _ => some o
+  | _ => none
+
 /-! ## Sites of the C++ source that the model mirrors (compared with the counts extracted from the headers, T1) -/
 
 /-- functions of HashSet.h containing `mCrew.IncVersion()` and the model functions that perform the matching `bump` -/
@@ -1348,5 +1478,14 @@ def checkSitesTreeSet : List (String × String) :=
 /-- sites of HashMultiMap.h calling `ConstIteratorProxy::Check` -/
 def checkSitesMultiMap : List (String × String) :=
   [("Remove(ConstIterator)", "MMap.remove"), ("MakeMutableIterator", "MMap.makeMutable"), ("CheckIterator", "MMap.checkIt")]
+
+/-- sites of DataTable.h evaluating `rowRef.GetRaw()` (the version check of a row reference argument) -/
+def checkSitesTable : List (String × String) :=
+  [("MakeMutableReference", "Table.makeMutable"), ("pvExtractRaw(rowRef) without row numbers (with them: rowRef.GetNumber())", "Table.removeRef"),
+   ("pvTryUpdate", "Table.updateB"), ("pvAssign with row numbers", "Table.removeRefs keep"), ("pvAssign without row numbers", "Table.removeRefs keep"),
+   ("pvRemove(begin, end) with row numbers", "Table.removeRefs"), ("pvRemove(begin, end) without row numbers", "Table.removeRefs")]
+/-- sites of DataSelection.h evaluating `rowRef.GetRaw()` -/
+def checkSitesSelection : List (String × String) :=
+  [("Set", "Sel.set"), ("Add(rowRef)", "Sel.add"), ("Insert(index, rowRef)", "Sel.insert")]
 
 end Momo.Ver
